@@ -194,7 +194,8 @@ func convertOption[TOption any](opts ...any) ([]TOption, error) {
 	for i := range opts {
 		o, ok := opts[i].(TOption)
 		if !ok {
-			return nil, fmt.Errorf("unexpected component option type, expected:%s, actual:%s", reflect.TypeOf((*TOption)(nil)).Elem().String(), reflect.TypeOf(opts[i]).String())
+			// %v: a nil option value has no type, reflect.TypeOf gives nil for it
+			return nil, fmt.Errorf("unexpected component option type, expected:%s, actual:%v", reflect.TypeOf((*TOption)(nil)).Elem().String(), reflect.TypeOf(opts[i]))
 		}
 		ret = append(ret, o)
 	}
